@@ -16,7 +16,6 @@ import c14_programs as P
 MODEL_FILES = ['MaltModel/Rt/Builtins.lean', 'MaltModel/Generated/Builtins.lean', 'MaltModel/Proofs/C14Bind.lean',
                'MaltModel/Proofs/C14Forward.lean', 'MaltModel/Proofs/C14Frames.lean', 'MaltModel/Drv/C14.lean']
 
-CLS_ENUM = 'enumerate_iterable_keyword'
 CLS_BODY = 'frame_builtin_inside_functionalised_body'
 CLS_EVAL_G = 'eval_globals_without_locals'
 CLS_EVAL_N = 'eval_explicit_none_globals'
@@ -137,9 +136,8 @@ def direct_case(routes, case):
 
 
 def class_of_direct(case):
-    """Python mirror of Lean `enumerateIterableKw` (the driver's answer is cross-checked when available)."""
-    if case['builtin'] == 'enumerate' and any(k == 'iterable' for k, _ in case['way'][1]):
-        return CLS_ENUM
+    """No open finding concerns the substituted builtins themselves (the `enumerate(iterable=...)` defect was fixed
+    in /repo by 295ca80): a difference between a substitute and its builtin is always a new violation."""
     return None
 
 
@@ -566,6 +564,14 @@ def _check(run, routes, only_case):
         else:
             run.notes.append('listed finding %s: witness no longer fails (or changed class to %r) - its class is not honoured in this run' % (k['id'], cls))
     run.cov['known_finding_classes_active'] = sorted(active)
+    for k in common.load_known_findings():
+        if k.get('property') == 'C14' and k.get('status') == 'fixed':
+            # a fixed entry suppresses nothing; its witness is in corpus/C14 and must pass
+            failed, what, cls, det = replay_case(routes, k['witness'])
+            run.case(('fixed-witness', k['id']), True)
+            if failed:
+                run.fail('recurrence of fixed defect %s (%s): %s' % (k['id'], k.get('commit'), what), k['witness'], None)
+            print(k.get('fixed_line') or 'fixed: property=C14 %s %s' % (k.get('commit'), k.get('what')))
 
     def fail(what, case, cls):
         run.fail(what, case, cls if cls in active else None)
@@ -803,30 +809,22 @@ def _check(run, routes, only_case):
     run.oblige('correspondence:spec-vs-probing', 'correspondence', not dis, json.dumps(dis[:4]))
 
     # every way the harness calls a builtin is accepted by the model's specification, and the conclusion of
-    # C14_forward evaluated by the driver holds on it unless the case is in the enumerate class
+    # C14_forward evaluated by the driver holds on it
     lines, meta = [], []
     for b in supported:
         for way in V.ways(b, 'thorough'):
             sx = sexp([list(way[0]), [[k, r] for k, r in way[1]]])
             for tr in ('(truthy)', '(truthy strict)'):
                 lines.append('c14.preserved %s %s %s' % (b, sx, tr)); meta.append((b, way))
-            lines.append('c14.class.enumkw %s %s' % (b, sx)); meta.append((b, way))
     got = drive(lines)
     bad = []
-    for i in range(0, len(lines), 3):
-        b, way = meta[i]
-        incls = got[i + 2] == 'True'
-        if incls != (class_of_direct({'builtin': b, 'way': [way[0], way[1]]}) == CLS_ENUM):
-            bad.append({'request': lines[i + 2], 'model class': got[i + 2]})
-        for j in (0, 1):
-            rows = parse_sexp(got[i + j])
-            accepted = [r for r in rows if r[0] == 'True']
-            if not accepted:
-                bad.append({'request': lines[i + j], 'problem': 'way not accepted by any form of the model specification'})
-            elif not incls and not all(r[1] == 'True' for r in accepted):
-                bad.append({'request': lines[i + j], 'problem': 'C14_forward conclusion false outside the known class', 'rows': rows})
-            elif incls and any(r[1] == 'True' for r in accepted):
-                bad.append({'request': lines[i + j], 'problem': 'class predicate holds but forwarding is fine', 'rows': rows})
+    for l, g in zip(lines, got):
+        rows = parse_sexp(g)
+        accepted = [r for r in rows if r[0] == 'True']
+        if not accepted:
+            bad.append({'request': l, 'problem': 'way not accepted by any form of the model specification'})
+        elif not all(r[1] == 'True' for r in accepted):
+            bad.append({'request': l, 'problem': 'C14_forward conclusion false on a documented way', 'rows': rows})
     run.evaluations += len(lines)
     run.cov['correspondence_lines']['ways-vs-model'] = len(lines)
     run.oblige('correspondence:ways-accepted-and-preserved', 'correspondence', not bad, json.dumps(bad[:3]))
